@@ -82,6 +82,7 @@ type (
 		singletonMut        sync.Mutex
 		onceMut             sync.Mutex
 		postProcessors      []func() error
+		postMut             sync.Mutex
 		owed                int
 		dual                bool
 		options             *Options
@@ -1372,7 +1373,7 @@ func SubqueryExpr(query *Query, current Map, expr *sqlparser.Subquery, opts ...E
 	if err != nil {
 		return nil, err
 	}
-	query.postProcessors = append(query.postProcessors, subQuery.settle)
+	query.deferWork(subQuery.settle)
 	query.wg.Add(1)
 	go func() {
 		subQuery.wg.Wait()
@@ -1430,7 +1431,7 @@ func ExistExpr(query *Query, current Map, expr *sqlparser.ExistsExpr, opts ...Ex
 	if !ok {
 		return false, INVALID_TYPE.Extend(fmt.Sprintf("failed to build `EXIST` expression. expected an array but found %T", array))
 	}
-	query.postProcessors = append(query.postProcessors, q.settle)
+	query.deferWork(q.settle)
 	query.wg.Add(1)
 	go func() {
 		q.wg.Wait()
@@ -1445,7 +1446,7 @@ func FunExpr(query *Query, current Map, expr *sqlparser.FuncExpr, opts ...ExprOp
 	if name == "await" {
 		var rs any
 		var err error
-		query.postProcessors = append(query.postProcessors, func() error {
+		query.deferWork(func() error {
 			// (AWAIT stands for its argument: an omit marker keeps its meaning)
 			slice, e := funcArgs(query, current, expr.Exprs)
 			if e != nil {
@@ -2007,6 +2008,14 @@ func (query *Query) execAndPostProcess() (result any, err error) {
 		return nil, err
 	}
 	return rs, nil
+}
+
+// deferWork registers a post-processor. The workers of a PARALLEL join evaluate
+// ON - and the nested selects, EXISTS and AWAIT in it - concurrently on one query
+func (query *Query) deferWork(postProcessor func() error) {
+	query.postMut.Lock()
+	defer query.postMut.Unlock()
+	query.postProcessors = append(query.postProcessors, postProcessor)
 }
 
 // settle waits for the asynchronous calls started so far and runs the
